@@ -358,6 +358,23 @@ def main(prop, tier, seed=None, nshards=None):
         print(herr[0])
         print("HARNESS-ERROR property=%s worker failed" % prop)
         return 2
+    fuzz_stats = None
+    if hasattr(mod, "fuzz_stage"):
+        # coverage-guided stage (atheris in sub-processes): it returns the
+        # inputs it recorded as failing; they are re-judged here like any
+        # other case, so a finding never depends on the fuzzer to replay
+        try:
+            if hasattr(mod, "init"):
+                mod.init(tier, seed)
+            extra, fuzz_stats = mod.fuzz_stage(tier, seed)
+            acc = Acc()
+            for case in extra:
+                acc.add(case, run_check(mod, case), ["fuzz", 0])
+            d = acc.dump()
+            d["wall"] = 0
+            results.append(d)
+        except HarnessError as e:
+            fuzz_stats = {"skipped": str(e)}
     evals = sum(r["evals"] for r in results)
     nt = set()
     labels = collections.Counter()
@@ -431,6 +448,8 @@ def main(prop, tier, seed=None, nshards=None):
         cov["exhaustive"] = True
     if hasattr(mod, "extra_coverage"):
         cov.update(mod.extra_coverage(tier))
+    if fuzz_stats is not None:
+        cov["coverage_guided"] = fuzz_stats
     wall = time.time() - t0
     write_evidence(prop, mod, tier, seed, cov, wall, len(violations))
     print("%s %s seed=%d: %d cases, %d distinct non-trivial, %d known, "
